@@ -80,6 +80,12 @@ type StreamFeature struct {
 	Negotiate func(ctx context.Context, session *Session, data interface{}) (mask SessionState, rw io.ReadWriter, err error)
 }
 
+// prerequisitesHold reports whether all bits the feature declares necessary
+// are set and none of the bits it prohibits are set in state.
+func prerequisitesHold(state SessionState, feature StreamFeature) bool {
+	return state&feature.Necessary == feature.Necessary && state&feature.Prohibited == 0
+}
+
 func containsStartTLS(features []StreamFeature) (startTLS StreamFeature, ok bool) {
 	for _, feature := range features {
 		if feature.Name.Space == ns.StartTLS {
@@ -148,7 +154,8 @@ func negotiateFeatures(ctx context.Context, s *Session, first, ws bool, features
 		// is in the features list to be negotiated) and we're not already on a
 		// secure connection, try it anyways to prevent downgrade attacks per RFC
 		// 7590.
-		doStartTLS = first && !advertisedStartTLS && s.State()&Secure != Secure && doStartTLS
+		doStartTLS = first && !advertisedStartTLS && s.State()&Secure != Secure && doStartTLS &&
+			startTLS.Negotiate != nil && prerequisitesHold(s.state, startTLS)
 
 		switch {
 		case doStartTLS:
@@ -207,7 +214,7 @@ func negotiateFeatures(ctx context.Context, s *Session, first, ws bool, features
 			// informational only and not meant to be negotiated: error.
 			_, negotiated := s.negotiated[start.Name.Space]
 			data, sent = list.cache[start.Name.Space]
-			if !sent || negotiated || data.feature.Negotiate == nil {
+			if !sent || negotiated || data.feature.Negotiate == nil || !prerequisitesHold(s.state, data.feature) {
 				// TODO: What should we return here?
 				return mask, rw, stream.PolicyViolation
 			}
@@ -239,9 +246,10 @@ func negotiateFeatures(ctx context.Context, s *Session, first, ws bool, features
 				// If we're the client, iterate through the cached features and select
 				// one to negotiate.
 				for _, v := range list.cache {
-					if _, ok := s.negotiated[v.feature.Name.Space]; ok || v.feature.Negotiate == nil {
-						// If this feature has already been negotiated, or is informational
-						// only with no negotiation, skip it.
+					if _, ok := s.negotiated[v.feature.Name.Space]; ok || v.feature.Negotiate == nil || !prerequisitesHold(s.state, v.feature) {
+						// If this feature has already been negotiated, is informational
+						// only with no negotiation, or can no longer be negotiated
+						// because an earlier feature changed the session state, skip it.
 						continue
 					}
 
